@@ -128,7 +128,12 @@ class Executor:
             # (collection & shell env)
             # TODO: load_collection needs to be skipped if task is anonymous
             # (Fabric 2 or other subclassing libs only)
-            collection_config = self.collection.configuration(call.called_as)
+            # NOTE: pre/post tasks and the default task carry no invocation
+            # name; they still get the settings of the namespace they live in.
+            name = call.called_as
+            if name is None:
+                name = self._name_of(call.task)
+            collection_config = self.collection.configuration(name)
             config.load_collection(collection_config)
             config.load_shell_env()
             debug("Finished loading collection & shell env configs")
@@ -144,6 +149,18 @@ class Executor:
             # case, wherein one task obj maps to >1 result.
             results[call.task] = result
         return results
+
+    def _name_of(self, task: "Task") -> Optional[str]:
+        """
+        Find a name under which our collection holds ``task``, if any.
+        """
+        for name in self.collection.task_names:
+            try:
+                if self.collection[name] is task:
+                    return name
+            except (KeyError, ValueError):
+                continue
+        return None
 
     def normalize(
         self,
